@@ -1605,13 +1605,23 @@ def sink_flag_tails(tree, ref, ref_locals):
                                 changed = True
                                 total += 1
                                 break
-                    if not (isinstance(st, ast.If) and st.orelse and rest):
+                    is_try = isinstance(st, ast.Try) and not st.finalbody and not st.orelse and bool(st.handlers)
+                    if not ((isinstance(st, ast.If) and st.orelse and rest) or (is_try and rest)):
                         continue
-                    st.body[:] = _untuple(st.body)             # `a, b = x, y` in a branch binds a and b
-                    st.orelse[:] = _untuple(st.orelse)
+                    if isinstance(st, ast.If):
+                        st.body[:] = _untuple(st.body)             # `a, b = x, y` in a branch binds a and b
+                        st.orelse[:] = _untuple(st.orelse)
                     flag_test = isinstance(rest[0], ast.If) and not any(isinstance(n, (ast.Call, ast.Attribute, ast.Subscript)) for n in ast.walk(rest[0].test)) and \
                         any(isinstance(n, ast.Name) for n in ast.walk(rest[0].test)) and \
                         not any(n.id in want or n.id in params for n in ast.walk(rest[0].test) if isinstance(n, ast.Name))
+                    if is_try and not flag_test:
+                        continue
+                    if is_try:
+                        # only the flag test itself may move under the handlers, and only where it cannot raise: its branches just leave
+                        if not all(isinstance(x, (ast.Break, ast.Continue, ast.Pass)) or (isinstance(x, ast.Return) and (x.value is None or isinstance(x.value, (ast.Constant, ast.Name))))
+                                   for x in rest[0].body + rest[0].orelse):
+                            continue
+                        rest = rest[:1]
                     if flag_test:
                         names = {n.id for n in ast.walk(rest[0].test) if isinstance(n, ast.Name)}
                     else:
@@ -1646,6 +1656,10 @@ def sink_flag_tails(tree, ref, ref_locals):
                         if isinstance(last, ast.If) and last.orelse:
                             collect(last.body)
                             collect(last.orelse)
+                        elif is_try and last is st:
+                            collect(st.body)
+                            for h_ in st.handlers:
+                                collect(h_.body)
                         else:
                             leaves.append(stmts)
                     collect([st])
@@ -1667,7 +1681,7 @@ def sink_flag_tails(tree, ref, ref_locals):
                                    for v in env.values()):
                             return False
                         return _const_truth(_Subst(env).visit(copy.deepcopy(rest[0].test))) is not None
-                    if not merged and not (flag_test and all(decided_in(l) for l in going)):
+                    if (is_try or not merged) and not (flag_test and all(decided_in(l) for l in going)):
                         continue
                     plan = set.intersection(*[sets(l) for l in going]) - set(want) - params
                     # the plan names live only between their binding in a leaf and the statements after the chain
@@ -2813,6 +2827,10 @@ def _tail_returns_to(stmts, make):
         ok = _tail_returns_to(last.body, make) and ok
         if last.orelse:
             ok = _tail_returns_to(last.orelse, make) and ok
+    elif isinstance(last, ast.Try) and not last.finalbody and not last.orelse:
+        ok = _tail_returns_to(last.body, make) and ok
+        for h in last.handlers:
+            ok = _tail_returns_to(h.body, make) and ok
     elif any(isinstance(n, ast.Return) for n in _own_walk(last)):
         ok = False
     return ok
@@ -3007,9 +3025,30 @@ def _expand_call(stmt, call, helper, skip_first, caller_names=frozenset()):
     return None
 
 
+def _structure_try_returns(stmts):
+    """`try: B except E: H` followed by a plain `return <literal / name>`: the return is what the body and every handler end with when
+    they do not leave themselves (a return of a literal cannot raise, so it may stand inside the try)"""
+    for i, s_ in enumerate(stmts):
+        if isinstance(s_, ast.Try) and not s_.finalbody and not s_.orelse and i + 2 == len(stmts) and isinstance(stmts[i + 1], ast.Return) and \
+                (stmts[i + 1].value is None or isinstance(stmts[i + 1].value, (ast.Constant, ast.Name))) and \
+                any(isinstance(n, ast.Return) for n in _own_walk(s_)):
+            r = stmts[i + 1]
+            if not _all_paths_leave(s_.body):
+                s_.body = s_.body + [copy.deepcopy(r)]
+            for h in s_.handlers:
+                if not _all_paths_leave(h.body):
+                    h.body = [x for x in h.body if not isinstance(x, ast.Pass)] + [copy.deepcopy(r)]
+            s_.body = _structure_returns(s_.body)
+            for h in s_.handlers:
+                h.body = _structure_returns(h.body)
+            return stmts[:i + 1]
+    return stmts
+
+
 def _structure_returns(stmts):
     """`if c: A; return x` followed by REST  ->  `if c: A; return x  else: REST` (recursively), so that every return of a straight-line
     helper ends up in tail position.  Meaning preserving: REST only ever ran when the guarded block did not leave."""
+    stmts = _structure_try_returns(stmts)
     for i, s_ in enumerate(stmts):
         if isinstance(s_, ast.If):
             s_.body = _structure_returns(s_.body)
@@ -3141,6 +3180,8 @@ def _all_paths_assign(stmts):
         return True
     if isinstance(last, ast.If):
         return bool(last.orelse) and _all_paths_assign(last.body) and _all_paths_assign(last.orelse)
+    if isinstance(last, ast.Try) and not last.finalbody and not last.orelse:
+        return _all_paths_assign(last.body) and all(_all_paths_assign(h.body) for h in last.handlers)
     return False
 
 
